@@ -39,6 +39,7 @@ CFG = """INIT Init
 NEXT Next
 CONSTANTS
   Plans <- MCPlans
+  SelFixed = %(selfixed)s
   Seed = %(seed)d
   WithNeg = %(neg)s
 INVARIANTS TypeOK BRefinesA OrderIndependent Terminates%(extra_inv)s Emit
@@ -628,9 +629,16 @@ def run(ctx, args):
     stats = D()
     if args.replay:
         return replay(ctx, harness, json.load(open(args.replay)))
+    # which getEnum does the code under test have?  (layer B transcribes either; verdicts never depend on B)
+    probe = run_harness(ctx, harness, [{"id": 0, "main": "m.thrift", "files": {
+        "m.thrift": 'include "a.thrift"\ntypedef a.E LE\nconst LE K = LE.V1\n', "a.thrift": "enum E {\nV1,\nV2,\n}\n"}}], "probe")[0]
+    px = ((probe.get("nodes") or {}).get("m.thrift|const:K|value") or {}).get("extra") or {}
+    selfixed = not (px.get("idx") == 0 and px.get("sel") == "LE")
+    ctx.notes.append("layer B transcribes the %s getEnum (probe: %s)" % ("fixed" if selfixed else "pinned", json.dumps(px, sort_keys=True)))
     seen_for_vacuity = []
     for k, (plans, neg, symcheck) in enumerate(TIERS[ctx.tier]):
-        cfg = CFG % dict(seed=ctx.seed, neg="TRUE" if neg else "FALSE", extra_inv=" TableAgrees" if symcheck else "")
+        cfg = CFG % dict(seed=ctx.seed, neg="TRUE" if neg else "FALSE", extra_inv=" TableAgrees" if symcheck else "",
+                         selfixed="TRUE" if selfixed else "FALSE")
         cases = generate(ctx, cfg, MC % ", ".join(plans), "ResolveGen[%d]" % k)
         if not cases:
             raise vlib.MachineryError("TLC emitted no cases")
